@@ -24,7 +24,8 @@ class Finding:
         return {"property": self.prop, "fn": self.op, "arm": self.arm, "class": self.cls, "profile": self.profile,
                 "witness": [[k, hex(v) if isinstance(v, int) else v] for k, v in self.witness],
                 "detail": self.detail, "predicted": self.predicted, "native": self.native, "confirmed": self.confirmed,
-                "native_op": self.native_op, "via": self.via}
+                "native_op": self.native_op, "via": self.via,
+                "fold_witness": [[k, hex(v)] for k, v in getattr(self, "fold_witness", None) or []]}
 
 
 class QueryStats:
